@@ -1321,6 +1321,118 @@ theorem src_yields_drive_the_steps (cfg : Cfg) (s : State) :
    fun i h => main_join_enabled_iff cfg s i h,
    fun k => ctlGo_is_ctlOp cfg k⟩
 
+open ALV.Gen.C17 in
+/-- **C17.src.9 src_run_successor** — the SUCCESSOR STRUCTURE of `stepPlayer` is computed from the
+regenerated skeleton: `nextPc skeleton gv pc` runs the control-flow interpreter of `Skel`
+(`ALV.Model.C17Next`: sequencing, `with`, the `for` loop and `break`, `if` with short-circuit `or` whose
+`go.is_set()` is a yield point of its own, `try … finally`, the inlined call of `thread_finished`) over
+`AudioThread.run` AS READ ON THIS RUN, from the yield point the program counter `pc` stands for (`ppcY`)
+to the next one, under the guard values `gv`.  For the source variant read on this run, EVERY step of
+a player thread in EVERY state moves its program counter exactly there (`playerGv`: the values of
+`halting`, `go.is_set()`, "another chunk", "still in `_threads`", "the iterable raises" in that state).
+So the branch structure of `stepPlayer` — after `write` test `halting` then `is_set`; `stop_stream`
+then `break` on `halting` else `wait`; re-test after `wait`; loop head; the exception leaving through
+`finally`; the epilogue with `close` and `thread_finished` only if still registered — is no longer
+hand-written: an edit of `run` that moves a `break`, a guard or the `finally` changes `nextPc skeleton`
+and breaks this theorem (besides `src_skeleton_is_documented`). -/
+theorem src_run_successor (cfg : Cfg) (hf : some cfg.fixed = srcFixed) (s s' : State) (i : Nat)
+    (p : Player) (hp : s.players[i]? = some p) (hs : stepPlayer cfg s i = some s') :
+    (s'.players[i]?).map (·.pc) = some (nextPc skeleton (playerGv s i p) p.pc) := by
+  have hfix : cfg.fixed = true := by
+    have := src_variant_is_modelled.1; rw [this] at hf; exact Option.some.inj hf
+  exact player_pc_is_nextPc cfg hfix s s' i p hp hs
+
+open ALV.Gen.C17 in
+/-- `nextPc skeleton` is total on the program counters of `run`: every one of them is a yield point
+the interpreter finds in the regenerated method (never the "not a yield point" answer `new`), under
+every guard valuation; a started thread begins at `write` or, with nothing to play, at the epilogue;
+and an exception at `write` (the played iterable raises) leaves through the `finally` clause: the
+epilogue (`finAcq`) — the only operation the model lets raise. -/
+theorem src_run_successor_total (h g m t : Bool) :
+    (∀ pc ∈ PPc.begin :: runPcs,
+      nextPc skeleton { halting := h, go := g, more := m, inThreads := t } pc ≠ .new) ∧
+    nextPc skeleton { more := m } .begin = (if m then .write else .finAcq) ∧
+    nextPc skeleton { halting := h, go := g, more := m, inThreads := t, raises := true } .write = .finAcq := by
+  cases h <;> cases g <;> cases m <;> cases t <;> decide
+
+open ALV.Gen.C17 in
+/-- **C17.src.10 src_main_successor** — the same for the control thread, inside each call: at every
+program counter of `stepMain` that is a yield point of `AudioIO.play` (with `AudioThread.__init__`
+inlined), `AudioIO.close` (with `thread.stop()` inlined) or `pause` / `play` / `stop` of a thread
+(`mpcMethod`; all but `begin`, `done` and the script's own `join`), EVERY step in EVERY state goes to
+the yield point `nextY skeleton m …` computes from the regenerated method `m` under the guard values of
+that state (`mainGv`: `finished`, `wait`, "`_threads[0]` raises", "the assert fails", and for the
+release of the manager's lock in `close` whether the block was left by the `break`) — or the
+interpreter says the method is over, exactly where the model returns to the script (`mpcReturns`: the
+last lock release, also the one caused by `raise ThreadError` / the failing `assert`); until then the
+program counter stays in the method.  So the branch structure of `close` (already finished → only the
+lock; look at `_threads[0]` under the lock, `break` on IndexError through the release; `stop()` unless
+`wait`; `join`; back to the loop head; the assert; `terminate`; release) and of `play` (raise through
+the release / `go.set`, `open`, `start`, release) is read from the source. -/
+theorem src_main_successor (cfg : Cfg) (hf : some cfg.fixed = srcFixed) (s s' : State) (m : String) (y : Y)
+    (hm : mpcMethod s.mpc = some m) (hy : mpcY true s.mpc = some y) (hs : stepMain cfg s = some s') :
+    (nextY skeleton m (mainGv cfg s) y).map (·.2) = some (if mpcReturns s.mpc then none else mpcY true s'.mpc) ∧
+    (mpcReturns s.mpc = false → mpcMethod s'.mpc = some m) := by
+  have hfix : cfg.fixed = true := by
+    have := src_variant_is_modelled.1; rw [this] at hf; exact Option.some.inj hf
+  exact main_pc_is_nextY cfg hfix s s' m y hm hy hs
+
+/-- the method names of `mpcMethod` are those of `src_ctl_is_model` -/
+theorem ctlMeth_is_ctlMethod : ctlMeth = ctlMethod := by funext k; cases k <;> rfl
+
+open ALV.Gen.C17 in
+/-- **C17.src.11 src_player_step_is_interpreted** — `stepPlayer` IS the interpretation of the
+regenerated `AudioThread.run`: for the source variant read on this run, in every state, a step of
+player `i` is enabled exactly when the yield point of its program counter is (`yEnabled`: the lock it
+acquires there is free / the event it waits for is set), and then the WHOLE successor state is
+`stepOfSkel skeleton s i p` = the effect of the operation the skeleton has at that yield point
+(`applyYP`: take / release the lock the skeleton names, one backend call on the own device stream, a
+write hands over the next chunk), then of the local operations the control-flow interpreter passes
+(`applyLocalP`: `_threads.remove` inside `thread_finished`), then the yield point it reaches as the
+new program counter.  What stays hand-written for a player thread is `applyYP` / `applyLocalP` (what
+ONE operation of the vocabulary does to the state: 8 + 1 one-line cases) and `playerGv` (which state
+fields the guards read) — not which operation comes where, nor under which lock, nor what follows. -/
+theorem src_player_step_is_interpreted (cfg : Cfg) (hf : some cfg.fixed = srcFixed) (s : State) (i : Nat)
+    (p : Player) (hp : s.players[i]? = some p) (hw : p.pc = .write → p.todo ≠ [] ∨ p.fail = true) :
+    stepPlayer cfg s i =
+      if p.pc == .begin || yEnabled s p false (ppcY p.pc) then some (stepOfSkel skeleton s i p) else none := by
+  have hfix : cfg.fixed = true := by
+    have := src_variant_is_modelled.1; rw [this] at hf; exact Option.some.inj hf
+  have hen := player_enabled_iff cfg s i p hp hw
+  rcases hst : stepPlayer cfg s i with _ | s'
+  · rw [hst] at hen
+    rw [← hen]; rfl
+  · rw [hst] at hen
+    rw [← hen, player_step_is_skeleton cfg hfix s s' i p hp hst]; rfl
+
+open ALV.Gen.C17 in
+/-- **C17.src.12 src_main_step_is_interpreted** — the EFFECTS of `stepMain` inside a call are read
+from the regenerated methods too: at every program counter that is a yield point of `play` / `close` /
+`pause` / `play` / `stop`, for the source variant read on this run, in every state, the successor state
+of an enabled step is `mainStepEff skeleton …` = the effect of the operation the skeleton has at that
+yield point (`applyYM`: take / release the lock named there, set / clear the event of the thread object
+of the call, `pa.open`, `start()`, `terminate()`), then of the local operations the control-flow
+interpreter passes on the way to the next yield point (`applyLocalM`: `finished = True` after the
+`halting` lock is taken and the test failed, the creation of the thread object under the manager's lock,
+`_threads.append` after `pa.open`, `halting = True` of `stop()` under the thread's lock before the
+event operation) — up to the program counter, which `src_main_successor` gives, and at the last lock
+release of the call the return to the script (`State.next`).  With `src_main_successor` and the
+enabledness clauses of `src_yields_drive_the_steps`, what stays hand-written of `stepMain` is: what
+ONE operation of the vocabulary does to the state (`applyYM` / `applyLocalM`), which state fields the
+guards read (`mainGv`), the data a program counter carries (which thread), and the script level
+(`nextCmd`, the logged observation). -/
+theorem src_main_step_is_interpreted (cfg : Cfg) (hf : some cfg.fixed = srcFixed) (s s' : State)
+    (m : String) (y : Y) (t : Option Player)
+    (ht : t = match mainTarget s.mpc with
+              | some j => s.players[j]?
+              | none => none)
+    (hm : mpcMethod s.mpc = some m) (hy : mpcY true s.mpc = some y) (hs : stepMain cfg s = some s') :
+    ∃ eff, mainStepEff skeleton cfg s t m y = some eff ∧
+      if mpcReturns s.mpc then ∃ e, s' = eff.next e else { s' with mpc := s.mpc } = eff := by
+  have hfix : cfg.fixed = true := by
+    have := src_variant_is_modelled.1; rw [this] at hf; exact Option.some.inj hf
+  exact main_step_is_skeleton cfg hfix s s' m y t ht hm hy hs
+
 /-- **C17.src.8 src_shutdown** — the liveness clause for the source AS READ: for the configuration
 whose `fixed` switch is the one extracted from `lazy_io.py` on this run, `wait=False`, every schedule
 of a script that calls `close` (no `join`), continued while some thread is enabled, ends with `close`
